@@ -108,6 +108,12 @@ CONFIGS = {c["name"]: c for c in [
     _cfg("D2", _mk("D2", {(0x0202, 0x82): CODE_D, (0x0620, 0x07): b"\x07", (0x0620, 0x06): b"Solo",
                           (0x0620, 0x04): b"\x06", (0x0620, 0x03): b"DevD2"}),
          True, True, False, CODE_D, 7),
+    # naming values that are present but EMPTY: an empty name is a missing name (no identifier, no comment, no update
+    # block), for the device settings as for the project settings
+    _cfg("Y1", _mk("Y1", {(0x0202, 0x82): CODE_A, (0x0620, 0x04): b"\x03", (0x0620, 0x03): b""}),
+         False, False, False, CODE_A, None),
+    _cfg("Y2", _mk("Y2", {(0x0202, 0x82): CODE_C, (0x0620, 0x07): b"\x03", (0x0620, 0x06): b"", (0x0620, 0x20): b"\x01"}),
+         False, False, True, CODE_C, None),
     # the empty configuration: a component holding only the terminator
     dict(_cfg("Z", {}, False, False, False, None, None), marker=b""),
     # --- correspondence only ---
